@@ -236,6 +236,11 @@ def arrays_and_compositions():
         ("Array(tuple, additional False)", lambda: Array([Integer(), String()], additionalItems=False)),
         ("Array(tuple, additional schema)", lambda: Array([Integer()], additionalItems=String(default="d"), minItems=1, maxItems=3, uniqueItems=True)),
         ("Array(contains)", lambda: Array(Element(), contains=Integer(minimum=2))),
+        ("Array([], additionalItems=Number())", lambda: Array([], additionalItems=Number())),
+        ("Array([], additionalItems=class)", lambda: Array([], additionalItems=_cls_renamed())),
+        ("Element(items=[], additionalItems=Array(Number()))", lambda: Element(items=[], additionalItems=Array(Number()))),
+        ("Array(Nothing())", lambda: Array(Nothing())),
+        ("Element(additionalProperties=Number())", lambda: Element(additionalProperties=Number(), patternProperties={"^s": String()})),
         ("Array(Array)", lambda: Array(Array(Number()))),
         ("Element(items tuple)", lambda: Element(items=[Integer(), Element(const=True)], additionalItems=Nothing())),
         ("AnyOf", lambda: AnyOf(Integer(), String(), default=1)),
